@@ -39,4 +39,11 @@ if [ ! -x "$ROOT/build/model.exe" ] || [ model.ml -nt "$ROOT/build/model.exe" ] 
   cp model.ml model.mli driver.ml "$ROOT/build/ml/"
   ( cd "$ROOT/build/ml" && ocamlfind ocamlopt -package zarith -linkpkg -w -a model.mli model.ml driver.ml -o "$ROOT/build/model.exe" )
 fi
+# 5. float-realised real-number model (C12 correspondence only; Extract/ExtractR.v lists its directives). No .mli: the extracted
+#    interface of the standard library's R module does not match its float realisation and is not used.
+if [ -f modelr.ml ] && { [ ! -x "$ROOT/build/modelr.exe" ] || [ modelr.ml -nt "$ROOT/build/modelr.exe" ] || [ driverr.ml -nt "$ROOT/build/modelr.exe" ]; }; then
+  rm -rf "$ROOT/build/mlr"; mkdir -p "$ROOT/build/mlr"
+  cp modelr.ml driverr.ml "$ROOT/build/mlr/"
+  ( cd "$ROOT/build/mlr" && ocamlfind ocamlopt -w -a modelr.ml driverr.ml -o "$ROOT/build/modelr.exe" ) || rm -f "$ROOT/build/modelr.exe"
+fi
 echo "BUILD: ok"
